@@ -236,6 +236,20 @@ MAIN = r'''
                 }
                 for (String[] c : vrt.Trace.CKIN) out.println("CKIN " + i + " " + c[0] + " " + c[1]);
                 for (String p : vrt.Trace.PATCHES) out.println("PATCH " + i + " " + p);
+            } else if (parts[0].equals("R")) {
+                String cid = parts[1];
+                out.println("BEGIN R " + cid); out.flush();
+                byte[] a = parts[2].equals("-") ? new byte[0] : vrt.Trace.unhex(parts[2]);
+                byte[] b = parts[3].equals("-") ? new byte[0] : vrt.Trace.unhex(parts[3]);
+                @ROOT@ obj = new @ROOT@();
+                try { obj.decode(Unpooled.wrappedBuffer(a)); } catch (StackOverflowError | Exception e) { }
+                try {
+                    ByteBuf buf = Unpooled.wrappedBuffer(b);
+                    obj.decode(buf);
+                    out.println("DEC " + cid + " " + buf.readableBytes() + " " + @DUMPROOT@(obj));
+                } catch (StackOverflowError | Exception e) {
+                    out.println("DECERR " + cid + " " + clean(e));
+                }
             } else if (parts[0].equals("D")) {
                 String cid = parts[1];
                 out.println("BEGIN D " + cid); out.flush();
